@@ -298,7 +298,7 @@ func coqSchema(s *vSchema) string {
 		return "SInvalid"
 	}
 	if s.IsDoc {
-		return "(SDoc " + coqVal(normJSON(s.Doc)) + ")"
+		return "(SDoc " + coqVal(normJSONNumber(s.Doc)) + ")"
 	}
 	ty := "None"
 	switch s.Type {
@@ -462,6 +462,22 @@ func normJSON(v any) any {
 	}
 	var o any
 	if json.Unmarshal(b, &o) != nil {
+		return v
+	}
+	return o
+}
+
+// normJSONNumber round-trips through JSON keeping every number as it is spelled (json.Number),
+// the way the jsonschema library reads a schema document.
+func normJSONNumber(v any) any {
+	b, err := json.Marshal(v)
+	if err != nil {
+		return v
+	}
+	d := json.NewDecoder(bytes.NewReader(b))
+	d.UseNumber()
+	var o any
+	if d.Decode(&o) != nil {
 		return v
 	}
 	return o
